@@ -312,6 +312,51 @@ def r6_whole_input_is_parsed(ctx: Ctx) -> None:
         ctx.check(len(other) == 1, "_code_gen:unknown-kind-raises", "a node kind without a generator is an error, not skipped")
 
 
+def r7_unmapped_address_rejected(ctx: Ctx) -> None:
+    """`unmapped address` is one of the listed failures: the bank lookup raises for a bank no mapping claims and the bank is the
+    whole of address >> 16 (the C04.R4 obligation)"""
+    from .c04 import r4_rejection
+
+    r4_rejection(ctx)
+
+
+def recovery_scope(ctx: Ctx) -> None:
+    """A handler that recovers locally (does not re-raise) may only guard the evaluation it was confirmed for: no handler in the
+    code generators encloses an expansion (`_code_gen` / a generator).  Expanding a block raises KeyError for an undefined macro,
+    IndexError for a missing argument, SymbolNotDefined / NodeError for undefined names: a recovering handler around it turns a
+    failed assembly into a shorter successful one."""
+    rs = get_resolver(ctx.repo)
+    expanders = {"a816.parse.codegen:_code_gen", "a816.parse.codegen:code_gen"}
+    n = 0
+    for fn in ctx.repo.all_functions():
+        if fn.module.name not in ("a816.parse.codegen", "a816.program"):
+            continue
+        for t in _tries(fn.node):
+            recovering = [h for h in t.handlers if not always_raises(h.body)]
+            if not recovering:
+                continue
+            n += 1
+            inside = {id(c) for st in t.body for c in ast.walk(st) if isinstance(c, ast.Call)}
+            hit = None
+            for site in rs.sites.get(fn.fq, []):
+                if id(site.node) in inside:
+                    for tg in site.targets:
+                        if tg.fq in expanders or expanders & rs.reachable_from([tg.fq]):
+                            hit = (site.node, tg)
+            names = sorted(set().union(*[(handler_names(h) or {"<bare>"}) for h in recovering]))
+            if hit is not None and fn.fq.startswith("a816.parse.codegen:"):
+                ctx.fail(f"{fn.where}:try-encloses-expansion", f"`{unparse(hit[0])[:60]}` expands statements inside a try whose handler ({', '.join(names)}) recovers locally: "
+                         "an undefined macro or symbol inside the expanded block is swallowed and the assembly still succeeds")
+            elif fn.fq.startswith("a816.parse.codegen:"):
+                ctx.ok(f"{fn.where}:try-scope", f"the recovering handler ({', '.join(names)}) guards no expansion")
+    ctx.count("recovering_tries", n)
+    ctx.floor("recovering_tries", 2)
+
+
+def r8_recovery_scope(ctx: Ctx) -> None:
+    recovery_scope(ctx)
+
+
 def rb_binding_agreement(ctx: Ctx) -> None:
     from ..ownership import binding_agreement
 
@@ -325,4 +370,4 @@ def rm_no_process_lifetime_results(ctx: Ctx) -> None:
     state_rule(ctx)
 
 
-RULES = [r1_handler_census, r2_entry_point_status, r3_error_values_consumed, r4_success_last, r5_escape_obligations, r6_whole_input_is_parsed, rb_binding_agreement, rm_no_process_lifetime_results]
+RULES = [r1_handler_census, r2_entry_point_status, r3_error_values_consumed, r4_success_last, r5_escape_obligations, r6_whole_input_is_parsed, r7_unmapped_address_rejected, r8_recovery_scope, rb_binding_agreement, rm_no_process_lifetime_results]
